@@ -437,7 +437,7 @@ def _gen_map(rng):
 
 def generate(rng, tier, mult):
     quick = tier == "quick"
-    n_pipes = (24 if quick else 120) * mult
+    n_pipes = (24 if quick else 100) * mult
     cases = []
     for _ in range(n_pipes):
         base = pipegen.gen_pipeline(rng, nmax=4)
@@ -461,7 +461,7 @@ def generate(rng, tier, mult):
                     length = rng.randint(2, 6)
                     h = _gen_history(rng, pd, pl, length, p_mut=rng.choice([0.0, 0.15, 0.3]))
                     cases.append({"kind": "hist", "p": pd, "cache": cache, "h": h})
-    for _ in range((50 if quick else 1200) * mult):
+    for _ in range((50 if quick else 1000) * mult):
         cache = rng.choice(_cache_choices(rng, tier))
         req = _gen_map(rng)
         r = rng.random()
